@@ -778,3 +778,19 @@ def setMassFrac_of_one_nuclide(a: float, b: float, x: float, V: float, T: float)
     comp.setMassFrac("D", x)
     assert eq(comp.getMassFrac("D"), x) and eq(comp.density(), rho0)
     assert eq(comp.getMassFrac("A") * b * wt("B"), comp.getMassFrac("B") * a * wt("A")), "A : B as before"
+
+
+@lemma(overrides=OV, stubs=ST, gen=dict(a=(0.001, 0.1), b=(0.001, 0.1), c=(0.001, 0.1), x=(0.01, 0.99), V=(0.01, 500.0), T=(20.0, 600.0)))
+def mass_fractions_summing_to_one_leave_nothing_for_the_rest(a: float, b: float, c: float, x: float, V: float, T: float):
+    """assigned fractions that sum to EXACTLY one (two nuclides, or one nuclide with fraction 1): they read back, every
+    other nuclide ends with no mass, the total density is unchanged"""
+    weights_positive()
+    assume(V > 0 and a > 0 and b > 0 and c > 0 and 0 < x and x < 1)
+    comp = settable({"A": a, "B": b, "C": c}, V, T)
+    mass_fraction_contract(comp, {"A": x, "B": 1.0 - x}, ["C"])
+    assert eq(comp.getMassFrac("C"), 0.0) and eq(comp.getNumberDensity("C"), 0.0), "nothing is left for the unnamed nuclide"
+    comp2 = settable({"A": a, "B": b, "C": c}, V, T)
+    rho0 = comp2.density()
+    comp2.setMassFrac("B", 1.0)
+    assert eq(comp2.getMassFrac("B"), 1.0) and eq(comp2.getMassFrac("A"), 0.0) and eq(comp2.getMassFrac("C"), 0.0)
+    assert eq(comp2.density(), rho0)
